@@ -397,6 +397,14 @@ def World.step (w : World) (line : String) : World :=
   | "settled" =>
     let p := peerNum (toks.getD 1 "")
     if arg toks "quiesce" == "true" then { w with inflight := w.inflight.filter (· != p), resync := p :: w.resync.filter (· != p) } else w
+  | "final12" =>
+    -- C12: after malformed traffic, later valid messages were still handled
+    w.stores.foldl (fun w (p, _) =>
+      let o := w.obsOf p
+      if !o.seen then w else
+      let missing := w.acked.filter (fun n => !o.values.contains n)
+      if missing.isEmpty then w else
+        w.fail "C12" "deaf" s!"peer {p} lacks {showNums (sortNums missing)}: valid messages after malformed ones were not handled") w
   | "final11" =>
     -- C11: after aborted requests, an uncancelled request for the same or newer heads made everything visible
     w.stores.foldl (fun w (p, _) =>
